@@ -32,6 +32,8 @@ type Commander struct {
 	lastTXID   *big.Int
 	referencer *Referencer
 	mu         sync.Mutex
+	// appendMu serialises transaction id allocation, chaining and hand-off to the batcher
+	appendMu sync.Mutex
 
 	lastLog *ledger.ChainedLog
 	monitor bus.Monitor
@@ -155,20 +157,21 @@ func (commander *Commander) exec(ctx context.Context, parameters Parameters, scr
 			return nil, nil, NewErrNoPostings()
 		}
 
-		tx := ledger.NewTransaction().
-			WithPostings(result.Postings...).
-			WithMetadata(result.Metadata).
-			WithDate(script.Timestamp).
-			WithID(commander.nextTXID()).
-			WithReference(script.Reference)
+		return executionContext.appendLog(ctx, func() *ledger.Log {
+			tx := ledger.NewTransaction().
+				WithPostings(result.Postings...).
+				WithMetadata(result.Metadata).
+				WithDate(script.Timestamp).
+				WithID(commander.nextTXID()).
+				WithReference(script.Reference)
 
-		verifhook.Yield(ctx, "txid", "id", tx.ID, "dry", parameters.DryRun)
-		log := logComputer(tx, result.AccountMetadata)
-		if parameters.IdempotencyKey != "" {
-			log = log.WithIdempotencyKey(parameters.IdempotencyKey)
-		}
-
-		return executionContext.AppendLog(ctx, log)
+			verifhook.Yield(ctx, "txid", "id", tx.ID, "dry", parameters.DryRun)
+			log := logComputer(tx, result.AccountMetadata)
+			if parameters.IdempotencyKey != "" {
+				log = log.WithIdempotencyKey(parameters.IdempotencyKey)
+			}
+			return log
+		})
 	})
 }
 
